@@ -1,8 +1,100 @@
-/- Driver handlers for area `stateres` (stub: replace `handle`). -/
+/- Driver handlers for area `stateres` (C10, C11). -/
 import VDriver.Util
+import VDriver.Auth
+import VModel.StateRes
 namespace V.Driver.StateresOps
-open V V.Driver
+open V V.Json V.Driver V.Auth V.StateRes V.Driver.AuthOps
 
-def handle (_op : String) (_args : Array String) : Option String := none
+def idxList (s : String) : List Nat :=
+  if s == "-" || s == "" then [] else (s.splitOn ".").map String.toNat!
+
+def sortIDs (ids : List Bytes) : List Bytes := sortBy bytesLt ids
+
+def showIDs (ids : List Bytes) : String := ",".intercalate ((sortIDs ids).map bytesStr)
+
+structure Parsed where
+  ver : Bytes
+  evs : Array Event
+  sets : List (List Event)
+  auth : List Event
+  rejected : List Bytes
+  sha : Bytes → Bytes
+
+def parseArgs (ver setsS authS rejS shaS : String) (evArgs : List String) : Option Parsed :=
+  let v := strBytes ver
+  match parseEvArgs v evArgs with
+  | none => none
+  | some es =>
+    let arr := es.toArray
+    let get (i : Nat) : Event := arr[i]!
+    let shas := (shaS.splitOn ".").map (fun h => (unhex h).getD [])
+    let table : List (Bytes × Bytes) := (es.map (·.eventID)).zip shas
+    some { ver := v, evs := arr,
+           sets := (setsS.splitOn "|").map (fun s => (idxList s).map get),
+           auth := (idxList authS).map get,
+           rejected := (idxList rejS).map (fun i => (get i).eventID),
+           sha := fun id => ((table.find? (fun x => x.1 == id)).map (·.2)).getD [] }
+
+/-- C11 result predicates evaluated on the implementation's answer `res` (sorted ID list, or an error marker) -/
+def resultProps (p : Parsed) (old : Bool) (res : String) : String :=
+  if res.startsWith "nondet" then "violates:order-dependent"
+  else if res.startsWith "malformed" then "violates:" ++ res
+  else if res.startsWith "panic" then "violates:panic"
+  else if res == "err" then "ok"
+  -- the deprecated resolver returns nothing at all when the auth events lack the create event ("we should return an
+  -- error here"): such inputs are outside the well-formed domain (auth events cover the auth chains)
+  else if old && (getCreateEvent p.auth).isNone then "unspecified:auth events lack the create event"
+  else
+    let ids : List Bytes := if res.isEmpty then [] else (res.splitOn ",").map strBytes
+    let supplied := (p.sets.flatten ++ p.auth).map (·.eventID)
+    let all := p.sets.flatten
+    let inSupplied := ids.all (fun id => supplied.contains id)
+    -- keys on which every state set agrees must keep exactly that event
+    let groups := groupByKey (distinctStateEvents p.sets)
+    let agreed := groups.filter (fun g => g.2.length == 1 &&
+      p.sets.all (fun s => s.any (fun e => e.eventID == (g.2.head!).eventID)))
+    -- the deprecated entry point decides "conflicted" on the flattened input: a key with a single event is kept
+    let keep := if old then groups.filter (fun g => g.2.length == 1) else agreed
+    let keepsAgreed := keep.all (fun g => ids.contains (g.2.head!).eventID)
+    let allEqual := match p.sets with
+      | [] => true
+      | s0 :: rest => rest.all (fun s => sortIDs (s.map (·.eventID)) == sortIDs (s0.map (·.eventID)))
+    let eqState := !allEqual || (match p.sets with
+      | [] => true
+      | s0 :: _ => sortIDs ids == sortIDs ((eventMapFromEvents s0).filter (fun e => e.stateKey.isSome) |>.map (·.eventID)))
+    let _ := all
+    if !inSupplied then "violates:result-not-subset-of-inputs"
+    else if !keepsAgreed then "violates:agreed-key-not-kept"
+    else if !eqState then "violates:equal-sets-not-returned"
+    else "ok"
+
+def handle (op : String) (args : Array String) : Option String :=
+  match op, args.toList with
+  | "resolve", ver :: setsS :: authS :: rejS :: shaS :: evArgs =>
+    match parseArgs ver setsS authS rejS shaS evArgs with
+    | none => some "bad-op"
+    | some p =>
+      match resolveConflictsNew p.sha p.ver p.sets p.auth p.rejected with
+      | none => some "err"
+      | some ids => some (showIDs ids)
+  | "stages", ver :: setsS :: authS :: rejS :: shaS :: evArgs =>
+    match parseArgs ver setsS authS rejS shaS evArgs with
+    | none => some "bad-op"
+    | some p =>
+      let algo := ((versionRow? p.ver).map (·.stateResAlgorithm)).getD 0
+      let st := resolveV2New algo p.sets p.auth p.rejected
+      let sh (l : List Bytes) := " ".intercalate (l.map bytesStr)
+      some ("conflicted=" ++ sh st.conflicted ++ " ; unconflicted=" ++ sh st.unconflicted ++ " ; authDiff=" ++ sh st.authDiff
+        ++ " ; control=" ++ sh st.control ++ " ; others=" ++ sh st.others ++ " ; controlOrder=" ++ sh st.controlOrder
+        ++ " ; othersOrder=" ++ sh st.othersOrder ++ " ; result=" ++ sh st.result)
+  | "resolve_old", _ => some "skip:deprecated entry point (claimed for C11's order-independence and well-formedness only)"
+  | "resolve_props", ver :: tagged :: setsS :: authS :: rejS :: shaS :: evArgs =>
+    match parseArgs ver setsS authS rejS shaS evArgs with
+    | none => some "bad-op"
+    | some p =>
+      let old := tagged.startsWith "old:"
+      let res := bytesStr ((unhex (tagged.drop 4).toString).getD [])
+      some ("ok\t" ++ resultProps p old res)
+  | _, _ => none
 
 end V.Driver.StateresOps
